@@ -27,6 +27,8 @@ import (
 type dtEnv struct {
 	ints  map[string]int64
 	bools map[string]bool
+	// store: under dtTrack, the values integer locals were assigned along the path being evaluated
+	store map[types.Object]int64
 }
 
 type dtFrame struct {
@@ -41,6 +43,7 @@ type dtBound struct {
 }
 
 type dtEval struct {
+	predMemo map[*an.Func][][]dtGuard // predicate functions with several returns, as guarded paths
 	e *Env
 	// collected atoms
 	intTerms  map[string]types.Type
@@ -257,6 +260,11 @@ func (ev *dtEval) evalInt(x ast.Expr, fr *dtFrame, env *dtEnv) (int64, error) {
 		if b, ok := fr.subst[fr.info.ObjectOf(v)]; ok {
 			return ev.evalInt(b.expr, b.frame, env)
 		}
+		if env != nil && env.store != nil {
+			if val, ok := env.store[fr.info.ObjectOf(v)]; ok {
+				return val, nil
+			}
+		}
 		if d, _ := ev.aliasOf(v, fr); d != nil {
 			return ev.evalInt(d, fr, env)
 		}
@@ -405,6 +413,46 @@ func (ev *dtEval) evalBool(x ast.Expr, fr *dtFrame, env *dtEnv) (bool, error) {
 	case *ast.CallExpr:
 		// single-return predicate helper of the workspace: inline
 		if f := an.CalleeFunc(fr.info, v); f != nil {
+			if callee := ev.e.Ix.FuncOf(f); callee != nil && singleReturn(callee) == nil {
+				// a predicate with several returns and no assignments: true iff one of its paths to a `return e` holds with e true
+				if ps := ev.predicatePaths(callee); ps != nil {
+					nf := &dtFrame{info: callee.Pkg.Info, subst: map[types.Object]dtBound{}, recv: nil}
+					if callee.Decl.Recv != nil && len(callee.Decl.Recv.List) == 1 && len(callee.Decl.Recv.List[0].Names) == 1 {
+						if sel, ok := an.Unparen(v.Fun).(*ast.SelectorExpr); ok {
+							nf.subst[callee.Pkg.Info.Defs[callee.Decl.Recv.List[0].Names[0]]] = dtBound{sel.X, fr}
+						}
+					}
+					i := 0
+					for _, fl := range callee.Decl.Type.Params.List {
+						for _, nm := range fl.Names {
+							if i < len(v.Args) {
+								nf.subst[callee.Pkg.Info.Defs[nm]] = dtBound{v.Args[i], fr}
+							}
+							i++
+						}
+					}
+					if env == nil {
+						for _, pth := range ps {
+							for _, gd := range pth {
+								_, _ = ev.evalGuards([]dtGuard{gd}, nf, nil)
+							}
+						}
+						return false, nil
+					}
+					saved := env.store
+					defer func() { env.store = saved }()
+					for _, pth := range ps {
+						ok, err := ev.evalGuards(pth, nf, env)
+						if err != nil {
+							return false, err
+						}
+						if ok {
+							return true, nil
+						}
+					}
+					return false, nil
+				}
+			}
 			if callee := ev.e.Ix.FuncOf(f); callee != nil {
 				if r := singleReturn(callee); r != nil && callee.Decl != nil {
 					nf := &dtFrame{info: callee.Pkg.Info, subst: map[types.Object]dtBound{}, recv: nil}
@@ -471,6 +519,113 @@ type dtGuard struct {
 	skip     bool
 	// ranged: the guard is the entry (outcome) / exit (!outcome) edge of `for ... := range ranged`: len(ranged) > 0
 	ranged ast.Expr
+	// assign: not a guard but an assignment to a tracked integer local passed on the path (dtTrack)
+	assign ast.Node
+}
+
+// trackedInts: the integer locals of the function whose assignments the dtTrack reading follows: declared in the body,
+// never assigned inside a function literal, address never taken.
+func trackedInts(g *an.Graph) map[types.Object]bool {
+	out := map[types.Object]bool{}
+	if g.Body == nil {
+		return out
+	}
+	bad := map[types.Object]bool{}
+	var walk func(n ast.Node, inLit bool)
+	walk = func(n ast.Node, inLit bool) {
+		ast.Inspect(n, func(m ast.Node) bool {
+			switch x := m.(type) {
+			case *ast.FuncLit:
+				if m != n {
+					walk(x.Body, true)
+					return false
+				}
+			case *ast.AssignStmt:
+				for _, l := range x.Lhs {
+					if id, ok := an.Unparen(l).(*ast.Ident); ok {
+						if o := g.Info.ObjectOf(id); o != nil && isIntLike(o.Type()) {
+							if inLit && !(o.Pos() >= n.Pos() && o.Pos() < n.End()) {
+								bad[o] = true
+							} else if !inLit {
+								out[o] = true
+							}
+						}
+					}
+				}
+			case *ast.IncDecStmt:
+				if id, ok := an.Unparen(x.X).(*ast.Ident); ok {
+					if o := g.Info.ObjectOf(id); o != nil && isIntLike(o.Type()) {
+						if inLit && !(o.Pos() >= n.Pos() && o.Pos() < n.End()) {
+							bad[o] = true
+						} else if !inLit {
+							out[o] = true
+						}
+					}
+				}
+			case *ast.ValueSpec:
+				if !inLit {
+					for _, nm := range x.Names {
+						if o := g.Info.Defs[nm]; o != nil && isIntLike(o.Type()) {
+							out[o] = true
+						}
+					}
+				}
+			case *ast.RangeStmt:
+				for _, l := range []ast.Expr{x.Key, x.Value} {
+					if id, ok := l.(*ast.Ident); ok {
+						if o := g.Info.ObjectOf(id); o != nil {
+							bad[o] = true // rebound by the loop header
+						}
+					}
+				}
+			case *ast.UnaryExpr:
+				if x.Op == token.AND {
+					if id, ok := an.Unparen(x.X).(*ast.Ident); ok {
+						if o := g.Info.ObjectOf(id); o != nil {
+							bad[o] = true
+						}
+					}
+				}
+			}
+			return true
+		})
+	}
+	walk(g.Body, false)
+	for o := range bad {
+		delete(out, o)
+	}
+	return out
+}
+
+// assignsTracked: CFG node n assigns one of the tracked locals.
+func assignsTracked(info *types.Info, n ast.Node, tracked map[types.Object]bool) bool {
+	hit := func(e ast.Expr) bool {
+		id, ok := an.Unparen(e).(*ast.Ident)
+		return ok && tracked[info.ObjectOf(id)]
+	}
+	switch x := n.(type) {
+	case *ast.AssignStmt:
+		for _, l := range x.Lhs {
+			if hit(l) {
+				return true
+			}
+		}
+	case *ast.IncDecStmt:
+		return hit(x.X)
+	case *ast.DeclStmt:
+		if gd, ok := x.Decl.(*ast.GenDecl); ok {
+			for _, sp := range gd.Specs {
+				if vs, ok := sp.(*ast.ValueSpec); ok {
+					for _, nm := range vs.Names {
+						if tracked[info.Defs[nm]] {
+							return true
+						}
+					}
+				}
+			}
+		}
+	}
+	return false
 }
 
 // hasLen: a range over t runs len(t) times.
@@ -521,10 +676,20 @@ func allPaths(g *an.Graph, n ast.Node) (paths [][]dtGuard, ok bool) {
 	isHeader := func(b *cfg.Block) bool {
 		return len(b.Succs) == 2 && (b.Kind == cfg.KindForLoop || b.Kind == cfg.KindRangeLoop)
 	}
+	var tracked map[types.Object]bool
+	if dtTrack {
+		tracked = trackedInts(g)
+	}
 	var walk func(b *cfg.Block) bool
 	walk = func(b *cfg.Block) bool {
 		if int(b.Index) == target {
-			paths = append(paths, append([]dtGuard(nil), cur...))
+			pth := append([]dtGuard(nil), cur...)
+			for _, nd := range b.Nodes {
+				if len(tracked) > 0 && nd.End() <= n.Pos() && assignsTracked(g.Info, nd, tracked) {
+					pth = append(pth, dtGuard{assign: nd})
+				}
+			}
+			paths = append(paths, pth)
 			return len(paths) < limit
 		}
 		if onPath[b.Index] {
@@ -539,6 +704,15 @@ func allPaths(g *an.Graph, n ast.Node) (paths [][]dtGuard, ok bool) {
 		}
 		onPath[b.Index] = true
 		defer func() { onPath[b.Index] = false }()
+		if len(tracked) > 0 {
+			mark := len(cur)
+			for _, nd := range b.Nodes {
+				if assignsTracked(g.Info, nd, tracked) {
+					cur = append(cur, dtGuard{assign: nd})
+				}
+			}
+			defer func() { cur = cur[:mark] }()
+		}
 		cd, tag := g.Cond(b)
 		var ranged ast.Expr
 		if dtUnroll && cd == nil && b.Kind == cfg.KindRangeLoop && len(b.Succs) == 2 {
@@ -573,6 +747,9 @@ func allPaths(g *an.Graph, n ast.Node) (paths [][]dtGuard, ok bool) {
 }
 
 func (ev *dtEval) evalGuards(gs []dtGuard, fr0 *dtFrame, env *dtEnv) (bool, error) {
+	if env != nil {
+		env.store = nil
+	}
 	for _, gd := range gs {
 		var v bool
 		var err error
@@ -582,6 +759,12 @@ func (ev *dtEval) evalGuards(gs []dtGuard, fr0 *dtFrame, env *dtEnv) (bool, erro
 		fr := fr0
 		if gd.fr != nil {
 			fr = gd.fr
+		}
+		if gd.assign != nil {
+			if err := ev.execAssign(gd.assign, fr, env); err != nil {
+				return false, err
+			}
+			continue
 		}
 		if gd.ranged != nil {
 			name := "len(" + ev.canon(gd.ranged, fr) + ")"
@@ -900,4 +1083,171 @@ func (ev *dtEval) disjointField(lhs ast.Expr, def ast.Expr, fr *dtFrame) bool {
 		return true
 	})
 	return !mentioned
+}
+
+// execAssign carries out, on env.store, an assignment to tracked integer locals met on the path (collecting the atoms
+// of its right-hand sides when env is nil).
+func (ev *dtEval) execAssign(n ast.Node, fr *dtFrame, env *dtEnv) error {
+	set := func(o types.Object, v int64) {
+		if env == nil || o == nil {
+			return
+		}
+		if env.store == nil {
+			env.store = map[types.Object]int64{}
+		}
+		env.store[o] = v
+	}
+	forget := func(o types.Object) {
+		if env != nil && env.store != nil {
+			delete(env.store, o)
+		}
+	}
+	switch x := n.(type) {
+	case *ast.IncDecStmt:
+		old, err := ev.evalInt(x.X, fr, env)
+		if err != nil {
+			return err
+		}
+		if x.Tok == token.INC {
+			set(an.ObjOf(fr.info, x.X), old+1)
+		} else {
+			set(an.ObjOf(fr.info, x.X), old-1)
+		}
+	case *ast.DeclStmt:
+		if gd, ok := x.Decl.(*ast.GenDecl); ok {
+			for _, sp := range gd.Specs {
+				vs, ok := sp.(*ast.ValueSpec)
+				if !ok {
+					continue
+				}
+				for i, nm := range vs.Names {
+					o := fr.info.Defs[nm]
+					if o == nil || !isIntLike(o.Type()) {
+						continue
+					}
+					switch {
+					case len(vs.Values) == 0:
+						set(o, 0)
+					case len(vs.Values) == len(vs.Names):
+						v, err := ev.evalInt(vs.Values[i], fr, env)
+						if err != nil {
+							return err
+						}
+						set(o, v)
+					default:
+						forget(o)
+					}
+				}
+			}
+		}
+	case *ast.AssignStmt:
+		if len(x.Lhs) != len(x.Rhs) {
+			for _, l := range x.Lhs {
+				forget(an.ObjOf(fr.info, l))
+			}
+			return nil
+		}
+		vals := make([]int64, len(x.Lhs))
+		isInt := make([]bool, len(x.Lhs))
+		for i, l := range x.Lhs {
+			o := an.ObjOf(fr.info, l)
+			if _, isId := an.Unparen(l).(*ast.Ident); !isId || o == nil || !isIntLike(o.Type()) {
+				continue
+			}
+			isInt[i] = true
+			r, err := ev.evalInt(x.Rhs[i], fr, env)
+			if err != nil {
+				return err
+			}
+			if x.Tok == token.ASSIGN || x.Tok == token.DEFINE {
+				vals[i] = r
+				continue
+			}
+			old, err := ev.evalInt(l, fr, env)
+			if err != nil {
+				return err
+			}
+			switch x.Tok {
+			case token.ADD_ASSIGN:
+				vals[i] = old + r
+			case token.SUB_ASSIGN:
+				vals[i] = old - r
+			case token.MUL_ASSIGN:
+				vals[i] = old * r
+			case token.QUO_ASSIGN:
+				if r != 0 {
+					vals[i] = old / r
+				}
+			case token.REM_ASSIGN:
+				if r != 0 {
+					vals[i] = old % r
+				}
+			default:
+				return fmt.Errorf("unsupported assignment operator %s", x.Tok)
+			}
+		}
+		for i, l := range x.Lhs {
+			if isInt[i] {
+				set(an.ObjOf(fr.info, l), vals[i])
+			}
+		}
+	}
+	return nil
+}
+
+// predicatePaths: for a function with a single boolean result and no function literals, the acyclic paths to each of
+// its return statements, each followed by the returned expression as a last guard: the function returns true iff the
+// guards of one of these paths all hold. nil if the function does not have that form.
+func (ev *dtEval) predicatePaths(fn *an.Func) [][]dtGuard {
+	if fn == nil || fn.Body() == nil || fn.Decl == nil || fn.Decl.Type.Results == nil || len(fn.Decl.Type.Results.List) != 1 {
+		return nil
+	}
+	if cached, ok := ev.predMemo[fn]; ok {
+		return cached
+	}
+	if ev.predMemo == nil {
+		ev.predMemo = map[*an.Func][][]dtGuard{}
+	}
+	ev.predMemo[fn] = nil
+	rt := fn.Pkg.Info.TypeOf(fn.Decl.Type.Results.List[0].Type)
+	if b, ok := rt.Underlying().(*types.Basic); !ok || b.Info()&types.IsBoolean == 0 || len(fn.Decl.Type.Results.List[0].Names) > 0 {
+		return nil
+	}
+	simple := true
+	var rets []*ast.ReturnStmt
+	ast.Inspect(fn.Body(), func(m ast.Node) bool {
+		switch x := m.(type) {
+		case *ast.FuncLit, *ast.GoStmt, *ast.DeferStmt, *ast.SendStmt, *ast.AssignStmt, *ast.IncDecStmt:
+			simple = false
+		case *ast.ReturnStmt:
+			if len(x.Results) != 1 {
+				simple = false
+			}
+			rets = append(rets, x)
+		}
+		return simple
+	})
+	if !simple || len(rets) < 2 {
+		return nil
+	}
+	// a case analysis: every result is a boolean constant (a function that hands on another call's answer is not read
+	// through)
+	for _, r := range rets {
+		if tv, ok := fn.Pkg.Info.Types[r.Results[0]]; !ok || tv.Value == nil {
+			return nil
+		}
+	}
+	g := ev.e.Graph(fn)
+	var out [][]dtGuard
+	for _, r := range rets {
+		ps, ok := allPaths(g, r)
+		if !ok {
+			return nil
+		}
+		for _, pth := range ps {
+			out = append(out, append(pth, dtGuard{cond: r.Results[0], outcome: true}))
+		}
+	}
+	ev.predMemo[fn] = out
+	return out
 }
